@@ -22,6 +22,7 @@ import vlib
 from vlib import Hit
 
 LEVEL = 'proof'
+MAX_REPORTED = 10      # distinct failing inputs written as replays per run (the rest is counted in the evidence)
 
 CASE_HEADER = (vlib.HEADER_CASES +
                'From Coq Require Import String.\n'
@@ -708,8 +709,9 @@ def run(ctx):
     # 0. translator (tie a): regenerate gen/VmiInv.v from the current source
     trans_err = None
     try:
-        from translate import vmi_inv
+        from translate import vmi_inv, vmi_index
         vmi_inv.generate()
+        vmi_index.generate()
     except Exception as e:     # noqa
         trans_err = '%s: %s' % (type(e).__name__, e)
     # 1. theorems (re-proves inv2_correct / inv3_correct against the regenerated file)
@@ -766,6 +768,9 @@ def run(ctx):
         if (h.key, h.clause) in seen:
             continue
         seen.add((h.key, h.clause))
+        if new >= MAX_REPORTED:
+            ctx.cov['hits_not_reported'] = ctx.cov.get('hits_not_reported', 0) + 1
+            continue
         if ctx.report_hit(h):
             new += 1
     if trans_err and new == 0:
